@@ -133,6 +133,26 @@ function genSem(rng, params) {
     const src = ds.map(tsOfDecl).join("\n") + `\nparse.buildParsers<{ R: Exclude<${tsOf(a)}, ${tsOf(b)}> }>();\n`;
     return [A("sem"), A(String(counter++)), [A("prog"), ds, [["R", [A("exclude"), a, b]]]], [["entry.ts", src]], vals.map(encVal)];
   }
+  if (rng.chance(1, 10)) {
+    // a CLOSED tuple (no rest element) that reaches the operators BY NAME — `Exclude<Pr | null, null>`, `Pr[number]` — judged on
+    // arrays one longer than the tuple and on values of none of its positions: a name must not open the tuple
+    const leafs = [A("string"), A("number"), A("boolean"), lit("s", "a"), lit("n", "1")];
+    const n = 1 + rng.below(3), elems = Array.from({ length: n }, () => rng.pick(leafs));
+    const tup = [A("tuple"), elems, A("none")];
+    const ds = [...decls.filter((d) => d[1] !== "Pr"), [A("alias"), "Pr", [], tup]];
+    const r = [A("ref"), "Pr"];
+    const other = rng.pick([A("null"), A("string"), [A("obj"), [["k", A("false"), A("string")]], A("none")]]);
+    const form = rng.below(3);
+    let e2, t2;
+    if (form === 0) { const a = [A("union"), r, other]; e2 = [A("exclude"), a, other]; t2 = `Exclude<${tsOf(a)}, ${tsOf(other)}>`; }
+    else if (form === 1) { e2 = [A("idx"), r, A("number")]; t2 = "Pr[number]"; }
+    else { const a = [A("union"), r, other, [A("array"), A("null")]]; e2 = [A("exclude"), a, [A("array"), A("null")]]; t2 = `Exclude<${tsOf(a)}, ${tsOf([A("array"), A("null")])}>`; }
+    const p2 = [A("prog"), ds, []];
+    const base = member(rng, p2, tup, 2);
+    const vals = [base, [...base, true], [...base, "zz", 7], base.slice(0, -1), [], true, {}, "zz", 42, null, ...semValues(rng, p2, [tup, other, ...elems], 4)];
+    const src = ds.map(tsOfDecl).join("\n") + `\nparse.buildParsers<{ R: ${t2} }>();\n`;
+    return [A("sem"), A(String(counter++)), [A("prog"), ds, [["R", e2]]], [["entry.ts", src]], vals.map(encVal)];
+  }
   if (rng.chance(1, 8)) {
     // operators over an intersection of unions that SHARE named object types (`(Bird | Cat | Dog) & (Cat | Fish)`): both
     // diagrams hold the same atom (a name has one atom), the arm of the diagram meet that inline types never reach
